@@ -232,7 +232,7 @@ def process_custom(custom: ct.CustomSelectors | None) -> dict[str, str | ct.Sele
                 raise SelectorSyntaxError(f"The name '{name}' is not a valid custom pseudo-class name")
             if name in custom_selectors:
                 raise KeyError(f"The custom selector '{name}' has already been registered")
-            custom_selectors[css_unescape(name)] = value
+            custom_selectors[util.lower(css_unescape(name))] = value
     return custom_selectors
 
 
